@@ -271,7 +271,7 @@ func (m *Machine) visitInstr(fr *frame, instr ssa.Instruction) continuation {
 		fr.env[instr] = m.makeSlice(fr, instr.Type(), fr.get(instr.Len), fr.get(instr.Cap))
 
 	case *ssa.MakeMap:
-		fr.env[instr] = &Map{entries: map[string]*mapEntry{}}
+		fr.env[instr] = newMap()
 
 	case *ssa.Range:
 		fr.env[instr] = m.rangeIter(fr, fr.get(instr.X))
@@ -306,8 +306,8 @@ func (m *Machine) visitInstr(fr *frame, instr ssa.Instruction) continuation {
 		if mp == nil {
 			panic(&targetPanic{v: Iface{t: m.p.runtimeErrorString, v: "assignment to entry in nil map"}, msg: "assignment to entry in nil map", pos: m.where(fr)})
 		}
-		k := fr.get(instr.Key)
-		mp.insert(m.keyString(k), k, fr.get(instr.Value))
+		kt := instr.Map.Type().Underlying().(*types.Map).Key()
+		m.mapInsert(fr, mp, kt, fr.get(instr.Key), fr.get(instr.Value))
 
 	case *ssa.TypeAssert:
 		fr.env[instr] = m.typeAssert(fr, instr, fr.get(instr.X).(Iface))
